@@ -1,7 +1,7 @@
 #!/bin/bash
 # Runs the pinned suite of /repo (guard off) and compares with /root/.vp/BASELINE.json stable_pass.
 export GOFLAGS=-mod=mod GOPROXY=off GOSUMDB=off GOTOOLCHAIN=local
-cd /repo && go test -json -vet=off -count=1 -timeout 25m ./... > /tmp/baseline.$$.json 2>/dev/null
+cd /repo && unshare -rn sh -c "ip link set lo up; go test -json -vet=off -count=1 -timeout 25m ./..." > /tmp/baseline.$$.json 2>/dev/null
 python3 - /tmp/baseline.$$.json <<'PY'
 import json,sys
 base=json.load(open('/root/.vp/BASELINE.json'))
